@@ -80,8 +80,9 @@ DEFAULT_WEIGHTS = {
 
 class HistoryGen(object):
     def __init__(self, rng, names=None, weights=None, p_bad=0.25,
-                 versions=None):
+                 versions=None, p_accept=0.0):
         self.rng = rng
+        self.p_accept = p_accept
         self.n = names or Names(rng)
         w = dict(DEFAULT_WEIGHTS)
         w.update(weights or {})
@@ -97,6 +98,14 @@ class HistoryGen(object):
         if req is None:
             req = self.g_post_rp(d)
         req['tag'].setdefault('op', op)
+        if self.p_accept and self.rng.random() < self.p_accept:
+            # a client that does not ask for JSON: whatever the service makes
+            # of the header, a write is either applied and answered with
+            # success or refused and not applied
+            req['accept'] = self.rng.choice([
+                'text/plain', 'application/xml', 'text/html',
+                'text/html,application/xml;q=0.9', 'application/json;q=0',
+                'image/*', 'application/jsonx'])
         return req
 
     def bad(self, p=None):
